@@ -17,7 +17,8 @@ def _skey(x):
 
 def extract_validator_constants(path):
     """(ignorable_keys or None, has_repeated_child_test,
-    has_no_children_test, recognised)"""
+    has_no_children_test, recognised); the duplicate-level and no-nodes tests
+    are reported by `extract_validator_tests`"""
     src = open(path).read()
     mod = ast.parse(src)
     fn = None
@@ -65,6 +66,32 @@ def extract_validator_constants(path):
                     any(isinstance(b, ast.Raise) for b in n.body):
                 nochild = True
     return keys, strict, nochild, (keys is not None and uses)
+
+
+def extract_validator_tests(path):
+    """{'dupLevel': bool, 'noNodes': bool}: are the top-level tests
+    `len(set(hierarchy)) != len(hierarchy)` and
+    `len(hierarchy) == 0 or len(taxonomy_tree[hierarchy[0]]) == 0`
+    (each guarding a `raise`) present in validate_taxonomy_tree?"""
+    mod = ast.parse(open(path).read())
+    fn = None
+    for node in ast.walk(mod):
+        if isinstance(node, ast.FunctionDef) and \
+                node.name == 'validate_taxonomy_tree':
+            fn = node
+    out = {'dupLevel': False, 'noNodes': False}
+    if fn is None:
+        return out
+    for n in fn.body:
+        if not (isinstance(n, ast.If) and
+                any(isinstance(b, ast.Raise) for b in n.body)):
+            continue
+        test = ast.unparse(n.test).replace(' ', '')
+        if test == 'len(set(hierarchy))!=len(hierarchy)':
+            out['dupLevel'] = True
+        if test == 'len(hierarchy)==0orlen(taxonomy_tree[hierarchy[0]])==0':
+            out['noNodes'] = True
+    return out
 
 
 class TreeCanon(object):
@@ -143,6 +170,8 @@ ERR_PATTERNS = [
     ('has no parent at level', 'orphan'),
     ('is not present in the keys at', 'missingChild'),
     ('has at least two parents', 'twoParents'),
+    ('lists a level more than once', 'dupLevel'),
+    ('has no nodes at its top level', 'noNodes'),
     ('has no children', 'noChildren'),
     ('more than once as a child', 'repeatedChild'),
     ('Some rows appear more than once', 'dupRows'),
@@ -452,6 +481,28 @@ def extra_malformed_variants(rng, tree):
                     pp = rng.choice(ups)
                     t[h[j - 1]][pp] = list(t[h[j - 1]][pp]) + ['lonely_zz']
             out.append(('childless_and_repeated', t))
+    # a level name listed twice (the validator tests this before the key set)
+    t = cp(); t['hierarchy'] = list(h) + [rng.choice(h)]
+    out.append(('duplicate_level', t))
+    t = cp(); t['hierarchy'] = [h[0]] + list(h)
+    out.append(('duplicate_level', t))
+    if len(h) == 2:
+        # ['a','b','a'] with a: {x: [y]}, b: {y: [x]}: the cycle x -> y -> x
+        t = {'hierarchy': [h[0], h[1], h[0]],
+             h[0]: {'x': ['y']}, h[1]: {'y': ['x']}}
+        out.append(('duplicate_level_cycle', t))
+    # duplicate level AND a stray key: the duplicate test fires first
+    t = cp(); t['hierarchy'] = list(h) + [h[-1]]; t['stray'] = {}
+    out.append(('duplicate_level_and_stray', t))
+    # top level emptied (its former nodes' children become orphans, but the
+    # no-nodes test fires first)
+    t = cp(); t[h[0]] = {}
+    out.append(('empty_top_level', t))
+    # every level emptied: a node-less taxonomy
+    t = cp()
+    for l in h:
+        t[l] = {}
+    out.append(('no_nodes_at_all', t))
     # ignorable keys
     t = cp()
     t['name_mapper'] = {}
@@ -482,7 +533,17 @@ def all_one_edit_variants(tree):
     t = cp(); t['hierarchy'] = h + ['ghost']; out.append(('ghost_level', t))
     t = cp(); t['hierarchy'] = ['ghost'] + h; out.append(('ghost_level', t))
     t = cp(); t['hierarchy'] = []; out.append(('empty_hierarchy_with_levels', t))
+    out.append(('empty_hierarchy', {'hierarchy': []}))
+    t = cp(); t[h[0]] = {}; out.append(('empty_top_level', t))
+    t = cp()
+    for l in h:
+        t[l] = {}
+    out.append(('no_nodes_at_all', t))
     for i in range(len(h)):
+        for j in range(len(h) + 1):
+            t = cp()
+            hh = list(h); hh.insert(j, h[i]); t['hierarchy'] = hh
+            out.append(('duplicate_level', t))
         if len(h) > 1:
             t = cp(); t['hierarchy'] = h[:i] + h[i + 1:]
             out.append(('unlisted_level', t))
